@@ -58,6 +58,26 @@ chain = sq.grow(1).\\
 print(Shape.
       sides, sq .  name)
 ''',
+    'decorators': '''import functools
+registry = []
+def register(fn):
+    registry.append(fn)
+    return fn
+def with_options(flag, size=registry):
+    return register
+@register
+def first(): pass
+@functools.lru_cache(None)
+@with_options(registry, size=functools)
+def second(arg=registry): return arg
+@register
+class Decorated(object):
+    @functools.wraps(first)
+    @staticmethod
+    def method(x=registry): return x
+    @property
+    def prop(self): return registry
+''',
     'closures': '''import sys
 counter = 0
 def outer(first, second=1, *rest, key=None, **extra):
@@ -131,7 +151,7 @@ print('REPRODUCED: inserting the cursor changed the analysis' if list(got[1]) !=
 
 
 @harness(['C12'], 'supp.assistant.assist [cursor inside and at the end of every name read and attribute access: transparency of the mark]',
-         bounded='5 programs (functions with every kind of control flow and parameters, a class hierarchy with instance attributes, closures / '
+         bounded='6 programs (decorators of functions, methods and classes, functions with every kind of control flow and parameters, a class hierarchy with instance attributes, closures / '
                  'globals / lambda, bindings made inside expressions: walrus in tests, operands and comprehensions, with items, tuple targets; `raise ... from` / `yield from` broken before `from`, after a backslash and inside brackets) x every name read (cursor after the first character, in the middle, at the end) and every attribute access '
                  '(cursor after the dot, after the first character, at the end)')
 def mark_transparency(run):
